@@ -44,7 +44,9 @@ THEOREMS = ['C06_indices_first_fastest', 'C06_items_array',
             'C06_parse_fill_kw_array', 'C06_parse_fill_kw_short_and_shapes',
             'C06_array_entry_transformation_refuted',
             'C06_lattice_end_to_end', 'C06_lattice_end_to_end_3d',
-            'C06_lattice_end_to_end_1d_2d']
+            'C06_lattice_end_to_end_1d_2d', 'C06_lattice_end_to_end_linked',
+            'C06_link_inverse_satisfiable', 'C06_fill_array_read_as_mcnp',
+            'C06_parse_fill_kw_flat']
 TRUSTED = [
     'hand-written model coq/C06/Model.v (modelled, tied by execution only)',
     'cells, surfaces other than planes and the effect of a transformation on a '
@@ -53,6 +55,13 @@ TRUSTED = [
     'universe and the 12 numbers of filltr; how a 12-number transformation '
     'moves a surface (p -> O + B^T p, MIP transform_frame) is C04\'s subject '
     'and is taken as the definition of apply_tr here',
+    'C06_lattice_end_to_end_linked derives the interface below from C05\'s '
+    'theorems over C05\'s model (cell_transform_den, pot_fill_located); what '
+    'remains assumed there: C05\'s sense/key laws (C04), inv = inverse of the '
+    'C06 point map on the produced transformations (satisfiable: '
+    'C06_link_inverse_satisfiable), the universe list of the lattice holds '
+    'the element cells, side conditions of pot_fill_located on the developed '
+    'table',
     'C06_lattice_end_to_end: what cell_transform and pot_fill do with the '
     'cells develop_lattice generates (region = image under apply_tr; volume = '
     'container region /\\ image of each leaf cell of the fill universe under '
@@ -944,6 +953,55 @@ def direct_ties(res, rng, quick):
     tie(res, 'c06_fillkw', 'parse_fill_kw',
         'string * list string * res (option bounds * funivs * nat * list string)',
         'check_fill_kw', cases, metas, lambda m: str(m)[:300])
+
+    # -- parse_one_cell_worker: option string -> keyword tokens --
+    class _Captured(Exception):
+        pass
+    worker = ParseMCNPCell.__new__(ParseMCNPCell)
+
+    def capture(kw_list):
+        worker.captured = list(reversed(kw_list))
+        raise _Captured()
+    worker.parse_keywords = capture
+    cases, metas = [], []
+    pieces = ['imp:n=1', 'IMP : N = 1', 'imp:n,p=1', 'u=3', 'U = 3', 'lat=1',
+              'fill=5', 'FILL=5 (1 0 0)', '*fill=5(0 0 0 90 0 90 180 90 90 90 '
+              '90 0)', 'fill=0:1 0:0 0:0 2 3', 'fill= -1 : 1  0:0 0 : 0 5 5 5('
+              '0 1 0)', 'trcl=(1 2 3)', 'TRCL=7', '*TRCL = ( 0 0 1 )', 'vol=1.5',
+              'tmp=2.5E-8', 'fill=2(3)', 'imp:n= 0', ':', ' : ', '=', '()',
+              'Fill=1:2 3 : 4 7 7 7 7']
+    for k in range(150 * mult):
+        text = rng.choice(['', ' ', '  ']).join(
+            rng.choice(pieces) + rng.choice([' ', '  ', ' ', ''])
+            for _ in range(rng.randint(0, 5)))
+        if rng.random() < 0.3:
+            text = ''.join(rng.choice([ch, ch, ch, ch.upper(), ' ' + ch])
+                           if ch in ':=()' or ch.isalpha() else ch
+                           for ch in text)
+        try:
+            worker.parse_one_cell_worker(0, None, ('0', '-1', text))
+            got = None
+        except _Captured:
+            got = worker.captured
+        if got is None:
+            continue
+        cases.append(cpair(cstr(text), clist(cstr(t) for t in got)))
+        metas.append({'option': text, 'impl': got})
+        res.seen(('options', text), nontrivial=len(got) > 1)
+        res.count('tokenize:tokens' + str(min(len(got), 12)))
+        # oracle: independent re-implementation with re.split
+        import re as _re
+        want = _re.sub(' *: *', ':', text).lower()
+        want = [t for t in _re.split(r'[\s()=]+', want) if t]
+        if got != want:
+            res.violation('impl-violation',
+                          f'option string {text!r} tokenised as {got}, '
+                          f'expected {want}', {'input': {'option': text}},
+                          found_input=True)
+    res.sample({'tokenize': metas[0]})
+    tie(res, 'c06_tokens', 'parse_one_cell_worker tokenisation',
+        'string * list string', 'check_tokenize', cases, metas,
+        lambda m: str(m)[:300])
 
     # -- to_fillid --
     cases, metas = [], []
